@@ -2,7 +2,13 @@
 
 package models
 
-import "strings"
+import (
+	"reflect"
+	"strings"
+
+	"github.com/go-openapi/strfmt"
+	"github.com/mitchellh/mapstructure"
+)
 
 // vCheckVerdict: the generated validator and the reference semantics must agree
 func vCheckVerdict(accepted, ref bool, name string) {
@@ -14,3 +20,15 @@ func vCheckVerdict(accepted, ref bool, name string) {
 func vHasPrefixRef(s, lit string) bool { return strings.HasPrefix(s, lit) }
 
 func vSame[T comparable](a, b T) bool { return a == b }
+
+// vFormats is the format registry handed to Validate: whether a text is well-formed for a named
+// format is an oracle bit of the run (the strfmt validators themselves are not the subject)
+type vFormats struct{ ok bool }
+
+func (f vFormats) Add(string, strfmt.Format, strfmt.Validator) bool { return false }
+func (f vFormats) DelByName(string) bool                            { return false }
+func (f vFormats) GetType(string) (reflect.Type, bool)              { return nil, false }
+func (f vFormats) ContainsName(string) bool                         { return true }
+func (f vFormats) Validates(name, data string) bool                 { return f.ok }
+func (f vFormats) Parse(string, string) (interface{}, error)        { return nil, nil }
+func (f vFormats) MapStructureHookFunc() mapstructure.DecodeHookFunc { return nil }
